@@ -17,7 +17,7 @@
    member: proved for the repaired constructor (C15_compound_after_last_fixed) and
    REFUTED for the code as it is (C15_compound_completion_refuted,
    C15_code_compound_reported_at_add: the report is the first thing that happens). *)
-From PV Require Import Base.Tac Compound.CompoundDefs Compound.CompoundAbs Compound.CompoundProofs Compound.CompoundBare.
+From PV Require Import Base.Tac Compound.CompoundDefs Compound.CompoundAbs Compound.CompoundProofs Compound.CompoundBare Compound.CompoundTree.
 Local Open Scope nat_scope.
 
 Lemma nonempty_len (sizes : list nat) : sizes <> [] -> 0 < length sizes.
@@ -164,6 +164,38 @@ Example C15_example_bare_member :
   seq_okB (bare_of ms) s = true /\ compound_lastB (bare_of ms) s = true /\
   rev (log s) = [LEnq 0; LBegin 0 0; LEnd 0 0; LPoolCb 0; LPoolCb 1; LEnq 2; LEnq 1; LBegin 2 0; LEnd 2 0; LPoolCb 2; LCompound].
 Proof. vm_compute. repeat split. Qed.
+
+(* NESTED compositions: an element of a compound may itself be a compound ([A,[B,C],D] =
+   parsec_compose(parsec_compose(A, parsec_compose(B, C)), D)).  CompoundTree.v gives them an
+   executable model (every compound node has its own detector, pending actions and
+   completed_taskpools; parsec_composed_taskpool_cb runs with the enclosing compound as cbdata, up
+   through every ancestor that finishes with this element; adding a nested compound runs its
+   startup hook down to its first leaf).  The members are the leaves in order ([flatten]).
+   PROVED: nothing general about trees.  The statement wanted — the history (enqueues, begins, ends,
+   member callbacks, completion of the OUTER compound) of a nested composition under any event list
+   equals that of the list semantics of its flattening under the same event list, so that all the
+   theorems above transfer — is only CHECKED: exhaustively over all interleavings for the small
+   trees below ([nested_equals_flat_everywhere] follows every effective event from every reachable
+   pair of states), by ocaml/d_compound.ml on every generated nested case, and against the real
+   library by the differential run.  What a proof needs: the tree model refines the same abstract
+   machine (CompoundAbs) over [flatten t], with an advance lemma by induction on the path from the
+   finished leaf up to the first ancestor that has an element left and down to that element's
+   first leaf. *)
+Example C15_nested_equals_flat_A_BC_D :
+  nested_equals_flat_everywhere (CNode [CLeaf (Some 1); CNode [CLeaf (Some 1); CLeaf (Some 1)]; CLeaf (Some 1)]) = true.
+Proof. vm_compute. reflexivity. Qed.
+Example C15_nested_equals_flat_depth3_with_bare :
+  nested_equals_flat_everywhere
+    (CNode [CLeaf None; CLeaf (Some 1); CNode [CLeaf (Some 2); CNode [CLeaf (Some 1); CLeaf (Some 0)]]; CNode [CLeaf (Some 1); CLeaf None]]) = true.
+Proof. vm_compute. reflexivity. Qed.
+Example C15_nested_history :
+  let t := CNode [CLeaf (Some 1); CNode [CLeaf (Some 1); CLeaf (Some 1)]; CLeaf (Some 0)] in
+  flatten t = [Some 1; Some 1; Some 1; Some 0] /\
+  rev (log (t_s (runT true t [EAdd; EStartup 0; EBegin 0 0; EStartupDone 0; EEnd 0 0; EStartup 1; EStartupDone 1; EBegin 1 0; EEnd 1 0;
+                              EStartup 2; EBegin 2 0; EEnd 2 0; EStartupDone 2; EStartup 3; EStartupDone 3]))) =
+  [LEnq 0; LBegin 0 0; LEnd 0 0; LPoolCb 0; LEnq 1; LBegin 1 0; LEnd 1 0; LPoolCb 1; LEnq 2; LBegin 2 0; LEnd 2 0; LPoolCb 2;
+   LEnq 3; LPoolCb 3; LCompound].
+Proof. vm_compute. split; reflexivity. Qed.
 
 (* non-vacuity: a compound of three members (2, 0 and 1 tasks) runs to completion under
    an interleaved schedule, with both constructors *)
